@@ -88,7 +88,7 @@ fn gen_vs(rng: &mut Prng, depth: usize) -> VS {
             0 => VS::Nil,
             5 => VS::Ref(rng.below(1000)),
             1 => VS::Int(*rng.pick(&[0i64, -1, 7, i64::MAX, i64::MIN, 1 << 53])),
-            2 => VS::Real(*rng.pick(&[0.5f64, -1e300, 1e-300, 3.0, 0.1, 123456.789])),
+            2 => VS::Real(*rng.pick(&[0.5f64, -1e300, 1e-300, 3.0, 0.1, 123456.789, f64::INFINITY, f64::NEG_INFINITY, -0.0])),
             _ => VS::Str(rng.pick(&["", "a", "héllo ✓", "k", "long string with spaces"]).to_string()),
         };
     }
@@ -153,6 +153,13 @@ fn many_globals(rng: &mut Prng) -> Module {
     // many functions => many labels
     for i in 0..*rng.pick(&[0usize, 1, 5, 40, 120]) {
         m.functions.push((format!("fn{i}"), Function { arguments: vec![], cards: vec![un("ret", int(i as i64))] }));
+    }
+    if rng.chance(1, 12) {
+        // thousands of labels and trace entries (every card has one)
+        let n = rng.range(2200, 5200);
+        let mut cards = vec![set("_", nil())];
+        cards.extend((0..n).map(|i| set("_", int(i))));
+        m.functions.push(("long_fn".into(), Function { arguments: vec![], cards }));
     }
     m
 }
@@ -292,7 +299,22 @@ impl Engine for SerdeEngine {
             Ok(o) => o,
             Err(_) => return viol("value:to-owned", "a value made of nil/numbers/strings/tables could not be converted to its owned form".into()),
         };
+        fn non_finite(v: &VS) -> bool {
+            match v {
+                VS::Real(f) => !f.is_finite(),
+                VS::Table(es) => es.iter().any(|(k, x)| non_finite(k) || non_finite(x)),
+                _ => false,
+            }
+        }
+        let has_non_finite = non_finite(&spec);
+        if has_non_finite {
+            obs.inc("values_with_non_finite_reals");
+        }
         for fmt in ["json", "cbor", "bincode"] {
+            if fmt == "json" && has_non_finite {
+                // JSON has no notation for infinities
+                continue;
+            }
             let back: Result<OwnedValue, String> = match fmt {
                 "json" => serde_json::to_vec(&owned).map_err(|e| e.to_string()).and_then(|b| serde_json::from_slice(&b).map_err(|e| e.to_string())),
                 "cbor" => {
